@@ -5,6 +5,7 @@ CONSTANTS
     Hedging = TRUE
     MaxHedges = 0
     Kinds = {"ok", "err", "short", "whole200"}
+    HedgeKinds = {"ok", "err", "short", "whole200"}
     Probes = {"parallel", "headError", "noRanges", "small", "tooLarge"}
     Fixed = TRUE
     Eager = TRUE
